@@ -167,6 +167,90 @@ def replay(h, seq):
     return total, bool(done) and bool(env.goal_reached()), ncomp
 
 
+def real_value_iteration(h, horizon, cap=700):
+    """Model-free oracle for very small scenarios: explore the REAL environment's
+    state graph (generative_step, draws forced to succeed), then maximise the total
+    reward of goal-reaching episodes of at most `horizon` steps by dynamic
+    programming.  Returns (best_total, action_list) or None (no goal / capped)."""
+    env = h.env
+    env.reset()
+    start = env.current_state
+    acts = [(i, a) for i, a in enumerate(h.real_actions) if a.prob > 0]
+    seeds = {}
+    for i, a in acts:
+        r = draws.seed_for(float(a.prob), "lo", 0) if a.prob < 1 else (0, 0)
+        if r is not None:
+            seeds[i] = r[0]
+    key0 = start.tensor.tobytes()
+    states = {key0: start}
+    goal = {key0: bool(env.goal_reached(start))}
+    trans = {}
+    queue = [key0]
+    while queue:
+        k = queue.pop(0)
+        if goal[k]:
+            trans[k] = []
+            continue
+        out = []
+        st_ = states[k]
+        for i, a in acts:
+            if i not in seeds:
+                continue
+            np.random.seed(seeds[i])
+            ns, obs, rew, done, info = env.generative_step(st_, a)
+            nk = ns.tensor.tobytes()
+            rew = float(rew)
+            if nk == k and rew <= 0:
+                continue            # a self-loop that costs something never helps
+            if nk not in states:
+                if len(states) >= cap:
+                    return None
+                states[nk] = ns
+                goal[nk] = bool(done) or bool(env.goal_reached(ns))
+                queue.append(nk)
+            out.append((i, rew, nk))
+        trans[k] = out
+    NEG = float("-inf")
+    V = {k: (0.0 if goal[k] else NEG) for k in states}
+    choice = []
+    for step in range(horizon):
+        V2, ch = {}, {}
+        for k in states:
+            if goal[k]:
+                V2[k] = 0.0
+                continue
+            best, arg = NEG, None
+            for i, rew, nk in trans[k]:
+                if V[nk] > NEG and rew + V[nk] > best:
+                    best, arg = rew + V[nk], (i, nk)
+            V2[k], ch[k] = best, arg
+        V = V2
+        choice.append(ch)
+    if V[key0] == NEG:
+        return None
+    # extract the episode
+    seq, k = [], key0
+    for ch in reversed(choice):
+        if goal[k]:
+            break
+        i, nk = ch[k]
+        seq.append(i)
+        k = nk
+    return V[key0], seq, len(states)
+
+
+def replay_real(h, seq):
+    env = h.env
+    env.reset()
+    total, done = 0.0, False
+    for i in seq:
+        a = h.real_actions[i]
+        np.random.seed(draws.seed_for(float(a.prob), "lo", 0)[0] if a.prob < 1 else 0)
+        o, r, done, tr, info = env.step(int(i))
+        total += float(r)
+    return total, bool(done) and bool(env.goal_reached())
+
+
 def steiner_branching(spec):
     """non-triviality: >= 2 distinct sensitive subnets that are not nested on a
     single shortest chain (approximated: >= 2 sensitive subnets)"""
@@ -232,6 +316,18 @@ def run_source(source, rep, record=True):
             if hops > ncomp:
                 raise Failure("C20:hops", f"get_minimum_hops() = {hops} but the goal is reached with only {ncomp} compromised hosts; "
                               f"episode {[repr(a) for a in seq]}; topology {spec.topology}, sensitive {list(spec.sensitive)}")
+        if len(spec.addrs) <= 4:
+            # model-free oracle: the real environment's own state graph
+            vi = real_value_iteration(h, horizon=min(16, 4 * len(spec.addrs) + 2))
+            if vi is not None:
+                best, seq, nst = vi
+                total, goal = replay_real(h, seq)
+                if record:
+                    rep.count("real-value-iteration")
+                    rep.extra["max_real_states"] = max(rep.extra.get("max_real_states", 0), nst)
+                if goal and total > bound + 1e-6:
+                    raise Failure("C20:bound-real", f"goal-reaching episode of the real environment earns {total} > advertised upper bound {bound} "
+                                  f"(hops {hops}); flat action indices {seq}; actions {[str(h.real_actions[i]) for i in seq][:12]}")
         if steiner_branching(spec):
             rep.nontriv(h.fp)
         if record:
